@@ -477,6 +477,12 @@ func asyncCase(r *R, kind, n, procs int, delayPattern int) *Case {
 	for i := range doneCh {
 		doneCh[i] = make(chan struct{})
 	}
+	closed := make([]int32, n+1)
+	closeOnce := func(i int) { // (a callback that runs twice for one element must not crash the harness: the log shows it)
+		if i >= 0 && i < n && atomic.CompareAndSwapInt32(&closed[i], 0, 1) {
+			close(doneCh[i])
+		}
+	}
 	var expired int32
 	waitNext := func(i int) {
 		if delayPattern != 5 || i+1 >= n || atomic.LoadInt32(&expired) != 0 {
@@ -539,9 +545,7 @@ func asyncCase(r *R, kind, n, procs int, delayPattern int) *Case {
 				delay(i + 1)
 				waitNext(i)
 				atomic.AddInt64(&finished, 1)
-				if i >= 0 && i < n {
-					close(doneCh[i])
-				}
+				closeOnce(i)
 			})
 			allDone = atomic.LoadInt64(&finished) == int64(n)
 			if ret != l {
@@ -598,9 +602,7 @@ func asyncCase(r *R, kind, n, procs int, delayPattern int) *Case {
 				delay(i + 1)
 				waitNext(i)
 				atomic.AddInt64(&finished, 1)
-				if i >= 0 && i < n {
-					close(doneCh[i])
-				}
+				closeOnce(i)
 			})
 			allDone = atomic.LoadInt64(&finished) == int64(n)
 			if ret != o {
